@@ -295,7 +295,7 @@ fn merge_doc(rng: &mut Rng) -> GNode {
     // mappings with merge entries: inline maps, aliases, sequences, nested merges, colliding own keys
     let keys = ["a", "b", "c", "d"];
     let small_map = |rng: &mut Rng, anchor: Option<String>| -> GNode {
-        let n = rng.below(3);
+        let n = 1 + rng.below(3);
         GNode::Map { anchor, tag: None, flow: true, entries: (0..n).map(|_| (sc(*rng.pick(&keys)), sc(&rng.below(9).to_string()))).collect() }
     };
     let mut defs: Vec<(GNode, GNode)> = Vec::new();
@@ -349,9 +349,55 @@ fn dup_doc(rng: &mut Rng) -> GNode {
     GNode::Map { anchor: None, tag: None, entries, flow: rng.chance(1, 3) }
 }
 
+/// minimised past findings and hand-written edge cases: run first in every typed / general run
+fn corpus() -> Vec<(Ty, String)> {
+    let i32t = || Ty::Int(true, 32);
+    let u8t = || Ty::Int(false, 8);
+    let e = || Ty::Enum("E", vec![("A", VTy::Newtype(i32t())), ("B", VTy::Unit), ("C", VTy::Tuple(vec![i32t(), i32t()])), ("D", VTy::Struct(vec![("x", i32t())])), ("O", VTy::Newtype(Ty::Option(Box::new(i32t()))))]);
+    let mut v: Vec<(Ty, String)> = Vec::new();
+    for t in ["[A, 5]", "[A, 5, B]", "[C, [1, 2], B]", "[D, {x: 1}]", "[B, B]", "[O, B]", "[{A: 5}, B]", "[!A 5, B]", "[!C [1, 2], B]", "[!C [1, 2, 3], B]",
+              "[!A [1], B]", "[!B x, !B [1, 2]]", "[{C: [1, 2, 3]}]", "[{C: [1]}]", "[{B: ~}, {B: }, {B: 1}]", "[{A: 1, B: 2}]", "[!D {x: 1, y: 2}]", "[!E A]", "[!X A]"] {
+        v.push((Ty::Seq(Box::new(e())), t.to_string()));
+    }
+    for t in ["{[1,2,3]: 7}", "{[1,2]: 7}", "{[1]: 7}", "? [1, 2, 3]\n: 7\n"] {
+        v.push((Ty::Map(Box::new(Ty::Tuple(vec![i32t(), i32t()])), Box::new(i32t())), t.replace("\\n", "\n")));
+    }
+    for t in ["{<<: {a: [1,2,3]}}", "{<<: {a: [1,2]}}", "{a: [1,2,3]}", "{<<: [{a: [1,2,3]}, {b: [1,2]}]}", "m: &m {a: [1,2,3]}\nt: {<<: *m}\n"] {
+        v.push((Ty::Map(Box::new(Ty::Str), Box::new(Ty::Any)), t.replace("\\n", "\n")));
+        v.push((Ty::Map(Box::new(Ty::Str), Box::new(Ty::Tuple(vec![i32t(), i32t()]))), t.replace("\\n", "\n")));
+    }
+    for t in ["!!binary AAEC", "!!binary AAE=", "!!binary AA==", "!!binary \"\"", "!!binary AAECAw==", "[0, 1]", "[0, 1, 2]"] {
+        v.push((Ty::Tuple(vec![u8t(), u8t()]), t.to_string()));
+        v.push((Ty::Seq(Box::new(u8t())), t.to_string()));
+        v.push((Ty::Seq(Box::new(Ty::Str)), t.to_string()));
+        v.push((Ty::Bytes, t.to_string()));
+    }
+    for t in ["{~: 1}: 2", "? {~: 1}\n: 2\n", "{}: 2", "? \n: 2\n", ": 2", "{null: 1}: 2", "{a: 1}: 2"] {
+        v.push((Ty::Map(Box::new(Ty::Option(Box::new(Ty::Str))), Box::new(i32t())), t.replace("\\n", "\n")));
+        v.push((Ty::Map(Box::new(Ty::Any), Box::new(Ty::Any)), t.replace("\\n", "\n")));
+    }
+    for t in ["&a \"\"", "- &a ''\n- *a\n", "[1, 2, 3]", "[1]", "~", "", "[[1, 2], [3]]"] {
+        v.push((Ty::Any, t.replace("\\n", "\n")));
+        v.push((Ty::Tuple(vec![Ty::Any, Ty::Any]), t.replace("\\n", "\n")));
+        v.push((Ty::Option(Box::new(Ty::Str)), t.replace("\\n", "\n")));
+    }
+    v
+}
+
 fn generate(a: &Args, name: &str, family: u8) -> i32 {
     let mut rng = Rng::new(a.seed ^ (family as u64) << 32);
     let mut sink = Sink::new(&a.out, name);
+    if family == 0 || family == 3 {
+        for (ty, text) in corpus() {
+            for dup in 0..3u8 {
+                let cfg = Cfg { dup, legacy_octal: false, strict_bool: false, ignore_binary: false, no_schema: false, budget: Some(Budget::default()), limits: AliasLimits::default() };
+                let (items, _, _) = crate::pump::items_tokens(&text);
+                let ans = run_single(&text, &ty, &cfg);
+                sink.count("corpus");
+                sink.case(&format!("e2e single {} {} | {}", cfg.tokens(false), ty.tokens(), items), &ans);
+            }
+        }
+    }
     let n = if a.thorough { 30000 } else { 2500 };
     let mut distinct = std::collections::BTreeSet::new();
     for i in 0..n {
